@@ -255,6 +255,17 @@ def h_submit(shapes=("chain3",), bss=(1, 2), maxns=(None, 1), tas=(True,), time_
                 ex.check(len(w.events("sbatch")) > before or c.is_complete(),
                          "C05: try-submit-jobs at quiescence neither submitted a batch nor completed the submission",
                          rc=r.rc, err="".join(r.err)[-300:], out="".join(r.out)[-200:])
+                # step clause: after this round a job whose blockers all have outcomes is unsubmitted only at the node limit
+                rows_now = set(w.result_names(out))
+                active_now = sum(1 for b_ in w.batches.values() if b_["state"] in ("PENDING", "RUNNING"))
+                if not c.is_complete() and not lost:
+                    for j_ in c.job_status.jobs:
+                        i_ = nm.index(j_.name)
+                        if j_.state.value == "not_submitted" and all(nm[b_] in rows_now for b_ in blockers.get(i_, [])) \
+                                and j_.name not in rows_now:
+                            ex.check(maxn is not None and active_now >= maxn,
+                                     "C05: a job whose blockers all have outcomes was left unsubmitted below the node limit", job=j_.name,
+                                     active=active_now, maxn=maxn)
                 continue
             k = ex.choice("s%d" % step, len(evs))
             ev = evs[k]
@@ -428,7 +439,8 @@ def h_submit(shapes=("chain3",), bss=(1, 2), maxns=(None, 1), tas=(True,), time_
         else:
             ex.check(sorted(got) == sorted(nm), "C03: results do not hold exactly one entry per configured job",
                      got=sorted(got), missing=data["missing_jobs"])
-            ex.check(not data["missing_jobs"], "C03: missing jobs in a fault-free run", missing=data["missing_jobs"])
+            ex.check(not data["missing_jobs"], "C03/C05: completion declared with jobs lacking a result in a fault-free run",
+                     missing=data["missing_jobs"])
             for n in nm:
                 if n in got:
                     ex.check(got[n] == want[n], "C03/C04: classification differs from the reference evaluation of the DAG",
